@@ -114,31 +114,32 @@ def rule_align(ctx) -> None:
     guard_decide(ctx, "C20.align.guard", fn, ["number", "alignment"],
                  lambda e: ("raise", None) if (e["alignment"] <= 0 or e["number"] < 0) else ("return", "<expr>"),
                  lo=-2, hi=3)
-    rets = A.returns_in(fn.node)
-    if len(rets) != 1 or rets[0].value is None:
-        raise AnalysisError("C20.align.formula: expected exactly one return expression in align()")
     fl = float_arith(fn.node)
     ctx.chk.decide(not fl, "C20.align.integer-arithmetic", fn.qual, "alignment is computed in exact integer arithmetic (no true division / float helpers)",
                    f"float arithmetic in an integer helper: {norm(fl[0]) if fl else ''} (inexact beyond 2**53; the contract covers integers up to 2**512)",
                    "integer operators only (//, %, *, +, -)", A.loc(MISC, fl[0]) if fl else "")
     if fl:
         return
+    # the whole function evaluated: every alignment 1..24 (powers of two, their neighbours, products) plus the larger ones SPSDK
+    # uses, every residue of the number - whichever formula or fast path the code takes, the result is the least multiple >= number
     bad = None
     n = 0
-    for a in range(1, 10):
-        for num in range(0, 4 * a + 2):
+    pn, pa = [a_.arg for a_ in fn.node.args.args][:2]
+    for a in list(range(1, 25)) + [31, 32, 33, 40, 48, 64, 80, 160, 255, 256, 320, 384, 4096, 65535]:
+        for num in sorted(set(range(0, min(a, 10) + 2)) | {a - 1, a, a + 1, 2 * a - 1, 2 * a, 2 * a + 1, 3 * a + 1, 7 * a + 3}):
             try:
-                v = ordereval.Evaluator({"number": num, "alignment": a}).ev(rets[0].value)
+                out = ordereval.Evaluator({pn: num, pa: a}, ctx.fold_sym(fn), opaque_return=False).run(A.body_of(fn.node))
             except ordereval.Unsupported as e:
-                raise AnalysisError(f"C20.align.formula: return expression outside the arithmetic fragment: {e}")
+                raise AnalysisError(f"C20.align.formula: align() left the arithmetic fragment: {e}")
             n += 1
             exp = -(-num // a) * a
-            if v != exp and bad is None:
-                bad = (num, a, v, exp)
+            if (out.kind != "return" or out.value != exp) and bad is None:
+                bad = (num, a, out.value if out.kind == "return" else out.kind, exp)
+    ctx.chk.exhaustive_rules.add("C20.align.formula")
     ctx.chk.decide(bad is None, "C20.align.formula", fn.qual,
-                   f"return expression is the least multiple of alignment >= number on {n} (number, alignment) residue representatives",
-                   f"{norm(rets[0].value)} gives {bad[2]} for number={bad[0]}, alignment={bad[1]}" if bad else "",
-                   f"least multiple >= number is {bad[3]}" if bad else "", A.loc(MISC, rets[0]))
+                   f"the result is the least multiple of alignment >= number on {n} (number, alignment) pairs (alignments 1..24 and the larger ones in use, the residues around every multiple)",
+                   f"align({bad[0]}, {bad[1]}) gives {bad[2]}" if bad else "",
+                   f"least multiple >= number is {bad[3]}" if bad else "", A.loc(MISC, fn.node))
 
 
 def _append_only(ctx, rule: str, fn, data: str, total_len, names: List[str], lens_sym: str, lo: int, hi: int, consts=None) -> None:
